@@ -316,6 +316,11 @@ Definition add_interface (now : N) (d : dstate) (i : iface) : dstate * list obs 
       (add_retrans resend (upd_svcs (fun _ => svcs') d1), sent ++ [OIpAdd (i_ip i)])
     end.
 
+(* has_ip_in_my_intfs (0f7c6ac): some held entry, whatever the interface and the prefix length,
+   has this IP *)
+Definition holds_ip (l : list myintf) (a : ip) : bool :=
+  existsb (fun m => existsb (fun x => ip_eqb (ia_ip x) a) (mi_addrs m)) l.
+
 Definition del_interface_addr (d : dstate) (i : iface) : dstate * list obs :=
   let idx := i_index i in
   match intf_get idx (d_intfs d) with
@@ -334,7 +339,10 @@ Definition del_interface_addr (d : dstate) (i : iface) : dstate * list obs :=
           if negb (family_enabled m' v4)
           then set_cache (remove_addrs_on_disabled_intf (d_cache d) idx (if v4 then TV4 else TV6)) (d_resolved d) d0
           else d0 in
-      (map_svcs (svc_remove_ip (i_ip i)) d1, [OIpDel (i_ip i)])
+      (* the IP is gone (IpDel, withdrawn from the auto-address services) only if no other held
+         entry still has it *)
+      if holds_ip (d_intfs d1) (i_ip i) then (d1, [])
+      else (map_svcs (svc_remove_ip (i_ip i)) d1, [OIpDel (i_ip i)])
     else (d, [])
   end.
 
@@ -356,8 +364,12 @@ Definition check_ip_changes (now : N) (d : dstate) : dstate * list obs :=
   (* addresses that vanished, interfaces left without any address *)
   let kept := map (fun m => mkMyIntf (mi_name m) (mi_index m)
                                (filter (fun a => os_has tbl (mi_index m) a) (mi_addrs m))) (d_intfs d) in
-  let deleted_ips := flat_map (fun m => map ia_ip (filter (fun a => negb (os_has tbl (mi_index m) a)) (mi_addrs m)))
-                              (d_intfs d) in
+  (* an address that is still held on another entry (moved and taken up there by an enable /
+     disable call, other prefix length, two interfaces) has not gone away; the entry of an
+     interface that no longer exists is already empty in `kept` *)
+  let deleted_ips := filter (fun a => negb (holds_ip kept a))
+                       (flat_map (fun m => map ia_ip (filter (fun a => negb (os_has tbl (mi_index m) a)) (mi_addrs m)))
+                                 (d_intfs d)) in
   let deleted_intfs := filter (fun m => is_nil (mi_addrs m)) kept in
   let d1 := set_intfs kept (d_regs d) d in
   (* del_ip for every vanished address *)
